@@ -349,3 +349,107 @@ def o6_3_confirm(v, out):
     """Native: batches with puts / deletes, empty keys and values, long values are encoded and decoded by the real codec."""
     if out.get('_rc') != 0: return (False, 'native run failed: %s' % out.get('_stderr', '')[-300:])
     return (out.get('mismatches', '0') != '0', '%s of %s encoded batches decode to something else (first: %s)' % (out.get('mismatches'), out.get('batches'), out.get('first_mismatch')))
+
+
+# =============================================================== O10.9 FileMetadata: setters and codec
+def o10_9_file_metadata(mir, tier):
+    """(a) FileMetadata::set_smallest_key / set_largest_key / set_file_size on a file with any current contents: afterwards the field
+    holds exactly the given value and nothing else changed (a compaction calls set_largest_key for every entry it writes: the bound
+    of an output must follow to the last entry, also when only the sequence number changed).
+    (b) `From<&FileMetadata> for Vec<u8>` followed by FileMetadata::deserialize over the token stream: number, size, smallest and
+    largest key come back unchanged for free keys in ANY mutual order (also two versions of one user key, newest first)."""
+    from ..ob import World
+    res = Result('O10.9 FileMetadata setters and codec', ['FileMetadata::set_smallest_key / set_largest_key / set_file_size', 'From<&FileMetadata> for Vec<u8>', 'FileMetadata::deserialize'],
+                 'current bounds present / absent with free keys, new value free; codec: free number, size and bounds (any mutual order); varint / length-prefixed slice / key primitives by contract')
+    t0 = time.time()
+    ff = mir.struct_fields('FileMetadata')
+    # ---- (a) setters
+    for which in ('smallest_key', 'largest_key'):
+        fn = mir.method('FileMetadata', 'set_' + which)
+        for cur_present in (False, True):
+            for new_present in (False, True):
+                w = World(mir); S = lib.std_summaries(); P = S['$patterns']
+                S['$patterns'].update(lib.ref_partial_ord(mir, 'InternalKey'))
+                lib.combinator_summaries(P)
+                uk = mir.field('InternalKey', 'user_key')
+                P[r'InternalKey::get_user_key'] = lambda se, env, pc, k: lib.one(env, _deep(se, env, k)[uk])
+                P[r'<\[u8\] as PartialEq>::eq'] = lambda se, env, pc, a, b: lib.one(env, _deep(se, env, a) == _deep(se, env, b))
+                P[r'<&\[u8\] as PartialEq>::eq'] = P[r'<\[u8\] as PartialEq>::eq']
+                cur, new, other = w.key('current'), w.key('new'), w.key('other')
+                f = mir.mk_struct('FileMetadata', allowed_seeks=Enum('None'), file_number=bv(7), file_size=BitVec('size', 64),
+                                  smallest_key=Enum('Some', (cur,)) if (cur_present and which == 'smallest_key') else (Enum('Some', (other,)) if which != 'smallest_key' else Enum('None')),
+                                  largest_key=Enum('Some', (cur,)) if (cur_present and which == 'largest_key') else (Enum('Some', (other,)) if which != 'largest_key' else Enum('None')))
+                ex = Exec(mir, S, loop_bound=4)
+                arg = Enum('Some', (new,)) if new_present else Enum('None')
+                def k(ret, env, pc, ex=ex, which=which, new_present=new_present, new=new, other=other, w=w):
+                    g = ex.deref(env, Ref('$f')); got = g[ff.index(which)]
+                    if new_present:
+                        ok = BoolVal(False)
+                        if isinstance(got, Enum) and got.tag == 'Some':
+                            gk = got.fields[0]
+                            while isinstance(gk, Ref): gk = ex.deref(env, gk)
+                            a, b = w.K(gk), w.K(new); ok = And(a[0] == b[0], a[1] == b[1], a[2] == b[2])
+                    else: ok = BoolVal(isinstance(got, Enum) and got.tag == 'None')
+                    posts = [('set_%s does not store the given key (a bound that does not follow the last entry written makes the file claim a narrower range than it holds)' % which, ok)]
+                    res.cases['set_%s current=%s new=%s' % (which, cur_present, new_present)] = 1
+                    for label, post, m in ex.check_posts(posts, pc):
+                        res.violations.append({'label': label, 'same_user_key': bool(mval(m, w.K(cur)[0] == w.K(new)[0])) if cur_present and new_present else None, 'replay': ['compaction_bounds_with_snapshot']})
+                ex.top(fn, [Ref('$f'), arg], {'$state': {}, '$f': f}, list(w.pre), k)
+                res.absorb(ex)
+    # ---- (b) codec
+    enc = [f for f in mir.fns.values() if f.name == 'from' and 'file_metadata' in f.path and f.trait and f.trait.startswith('From') and f.self_ty and 'Vec' in f.self_ty]
+    dec = mir.method('FileMetadata', 'deserialize')
+    if len(enc) != 1: raise Inconclusive('FileMetadata encoder not found uniquely (%d)' % len(enc))
+    enc = enc[0]
+    w = World(mir); S = lib.std_summaries(); P = S['$patterns']
+    S['$patterns'].update(lib.ref_partial_ord(mir, 'InternalKey'))
+    P_ = token_summaries(S, mir, w)
+    del P[r'FileMetadata::deserialize']; del P[r'<Vec<u8> as From<&FileMetadata>>::from']
+    P[r'<R as ReadHelpers>::read_length_prefixed_slice'] = P[r'<&\[u8\] as ReadHelpers>::read_length_prefixed_slice']
+    uk = mir.field('InternalKey', 'user_key'); sq = mir.field('InternalKey', 'sequence_number')
+    P[r'InternalKey::get_user_key'] = lambda se, env, pc, k: lib.one(env, _deep(se, env, k)[uk])
+    P[r'InternalKey::get_sequence_number'] = lambda se, env, pc, k: lib.one(env, _deep(se, env, k)[sq])
+    sm, lg = w.key('smallest'), w.key('largest'); num, size = BitVec('file_number', 64), BitVec('file_size', 64)
+    f0 = mir.mk_struct('FileMetadata', allowed_seeks=Enum('None'), file_number=num, file_size=size, smallest_key=Enum('Some', (sm,)), largest_key=Enum('Some', (lg,)))
+    ex = Exec(mir, S, loop_bound=4)
+    def encoded(buf, env, pc):
+        e = dict(env); e['$reader'] = {'tokens': list(buf['tokens'])}
+        def decoded(ret, env2, pc2):
+            posts = [('an encoded file description does not decode', BoolVal(isinstance(ret, Enum) and ret.tag == 'Ok'))]
+            if isinstance(ret, Enum) and ret.tag == 'Ok':
+                g = ret.fields[0]
+                def same(got, want):
+                    if not (isinstance(got, Enum) and got.tag == 'Some'): return BoolVal(False)
+                    gk = got.fields[0]
+                    while isinstance(gk, Ref): gk = ex.deref(env2, gk)
+                    a, b = w.K(gk), w.K(want); return And(a[0] == b[0], a[1] == b[1], a[2] == b[2])
+                posts.append(('file number or size change in encode + decode', And(g[ff.index('file_number')] == num, g[ff.index('file_size')] == size)))
+                posts.append(('the smallest key of a file changes in encode + decode', same(g[ff.index('smallest_key')], sm)))
+                posts.append(('the largest key of a file changes in encode + decode', same(g[ff.index('largest_key')], lg)))
+            res.cases['codec -> %s' % getattr(ret, 'tag', '?')] = 1
+            for label, post, m in ex.check_posts(posts, pc2):
+                res.violations.append({'label': label, 'same_user_key': bool(mval(m, w.K(sm)[0] == w.K(lg)[0])), 'replay': ['single_key_file_reopen']})
+        ex.run_fn(dec, [Ref('$reader')], e, pc, decoded)
+    ex.top(enc, [Ref('$f')], {'$state': {}, '$f': f0}, list(w.pre), encoded)
+    res.absorb(ex)
+    for pcx, msg, where in ex.panics:
+        res.panic_paths += 1; res.violations.append({'label': 'panic path: ' + msg[:80], 'replay': None, 'confirmed_by': {'reproduced': False, 'detail': 'no native scenario'}})
+    res.wall_s = time.time() - t0
+    if res.violations: res.status = 'violation'
+    return res
+
+
+def _deep(se, env, v):
+    v = se.deref(env, v) if isinstance(v, Ref) else v
+    while isinstance(v, Ref): v = se.deref(env, v)
+    return v
+
+
+def o10_9_confirm(v, out):
+    """Native: (compaction_bounds_with_snapshot) put a, k; compact; snapshot; put k again; compact: the table must report k@old as its
+    largest key and the snapshot must read the old value.  (single_key_file_reopen) a table holding three versions of one key is
+    described identically before close and after reopen."""
+    if out.get('_rc') != 0: return (False, 'native run failed: %s' % out.get('_stderr', '')[-300:])
+    if v['replay'][0] == 'single_key_file_reopen':
+        return (out.get('before') != out.get('after'), 'native: table layout before close %s, after reopen %s' % (out.get('before'), out.get('after')))
+    return (out.get('snapshot_read') != 'old' or out.get('bounds_cover_entries') != 'true', 'native: the snapshot taken before the overwrite reads %s; reported bounds cover the stored entries: %s (%s)' % (out.get('snapshot_read'), out.get('bounds_cover_entries'), out.get('layout')))
